@@ -132,6 +132,7 @@ _inp("C11", "exhaustive enumeration of tie-heavy worlds x segment layouts x sort
 
 # Families added after the seeded-change waves (DESIGN.md §10); appended to the level text.
 EXTRA = {
+  "C26": " Also call sequences on one handle: every ordered pair (thorough: triple) of 16 calls incl. NULL / zero-capacity buffers, every call judged against a fresh handle's response.",
   "C04": " With >= 2 handles also two roots with a second live handle whose view is stale, explored to depth 3.",
   "C09": " Also a multi-block family: every placement pattern of 5-6 padded documents over shapes that give the query terms posting lists of different lengths and block boundaries x bmw_block_size 1-5.",
   "C11": " Also cursors carried over a delete-only commit (first / last / second segment emptied, first document deleted) under sort plans without _score: rejected, or continued with exactly the surviving documents.",
@@ -152,8 +153,8 @@ EXTRA = {
   "C18": " Also rescore variants (window 1-3 x 3 score modes) crossed with collapse, judged against the same rescored request without collapse. Also every (request sort, inner_hits sort) pair over all key sequences of length 0..2 (thorough 0..3).",
   "C20": " Also a score-tie sweep: 24-64 documents x 10 sort plans (multi-key, led by _score or by a field) x limit {1,3,5} x the first three pages.",
   "C22": " Also a multi-byte family (2-, 3-, 4-byte characters at start / middle / end of tokens with ASCII edits next to them) with a completeness oracle on character edit distance. Also a tie family (six terms sharing a prefix x every doc_freq assignment) with an exact head-of-covering-answer comparison.",
-  "C24": " Also an echoed-input family: 119 request locations the server may quote back x names of 1-4 byte characters at every byte phase x a dense length sweep around every power of two up to the body limit.",
-  "C25": " Also a body-delivery family: the same /add and /bulk bodies with multi-byte text as Content-Length, as chunked transfer encoding split at every byte offset and with chunk sizes 1-3, and as two socket writes.",
+  "C24": " Also an echoed-input family: 119 request locations the server may quote back x names of 1-4 byte characters at every byte phase x a dense length sweep around every power of two up to the body limit. Also a header-value family: 9 headers x 10 texts (multi-byte UTF-8, lone high bytes, tab, control bytes) on 11 routes as raw bytes, plus non-ASCII query strings.",
+  "C25": " Also a body-delivery family: the same /add and /bulk bodies with multi-byte text as Content-Length, as chunked transfer encoding split at every byte offset and with chunk sizes 1-3, and as two socket writes. The long-lived FFI handle is also probed after every individual write call of every history.",
 }
 
 NOT_YET = "check not built yet in this session (see DESIGN.md §3 for the planned engine); no verdict is claimed"
